@@ -52,7 +52,7 @@ func (m *Machine) Step(t *rapid.T, failPct int) {
 			if len(m.liveRunners(true)) == 0 {
 				continue
 			}
-		case "cancelCompleting":
+		case "cancelCompleting", "scheduleCompleting":
 			if c, _ := m.lastTaskJobs(false); len(c) == 0 {
 				continue
 			}
@@ -74,6 +74,8 @@ func (m *Machine) Step(t *rapid.T, failPct int) {
 		m.ActRelease(t)
 	case "cancelCompleting":
 		m.ActCancelWhileCompleting(t)
+	case "scheduleCompleting":
+		m.ActScheduleWhileCompleting(t)
 	case "reload":
 		m.ActReload(t)
 	case "save":
@@ -144,10 +146,10 @@ func TestC05(t *testing.T) {
 // C01: per-pipeline concurrency limit is never exceeded.
 func TestC01(t *testing.T) {
 	cfg := &Cfg{Prop: "C01", MaxPipelines: 2, MaxTasks: 3, DelayPct: 30, ReplacePct: 25, CyclicPct: 12, ReservedPct: 12, AllowFailPct: 15, ContinuePct: 30,
-		LimitChoices: []int{-1, -1, -1, 2, 3, 1}, Weights: map[string]int{"schedule": 36, "cancel": 9, "finish": 30, "timer": 10, "hold": 4, "release": 6, "reload": 5},
+		LimitChoices: []int{-1, -1, -1, 2, 3, 1}, Weights: map[string]int{"schedule": 36, "cancel": 9, "finish": 30, "timer": 10, "hold": 4, "release": 6, "reload": 5, "scheduleCompleting": 4},
 		Armed: map[string]bool{"C01": true}}
 	runHistories(t, histOpts{cfg: cfg, failPct: 20,
-		rule: "stateful rapid histories incl. reload (limits raised/lowered), reserved-variable and cyclic jobs, hold/release, failures, out-of-order timers; invariants evaluated at every event of the task-runner log: jobs executing after each start <= concurrency in force, every task interval inside its job's executing span, completion reported only with no task open, no second start; non-trivial = the limit was binding (a request queued or rejected while jobs ran) and a queued job was started later; distinct by action trace",
+		rule: "stateful rapid histories incl. reload (limits raised/lowered), reserved-variable and cyclic jobs, hold/release, failures, out-of-order timers, schedule requests while a job completes; invariants evaluated at every event of the task-runner log: jobs executing after each start <= concurrency in force, every task interval inside its job's executing span, completion reported only with no task open, no second start; non-trivial = the limit was binding (a request queued or rejected while jobs ran) and a queued job was started later; distinct by action trace",
 		nontrivial: func(c map[string]int) bool {
 			return (c["schedule:queue"] > 0 || c["schedule:replace"] > 0 || c["schedule:reject"] > 0) && c["dequeue-start"] > 0
 		}})
@@ -190,10 +192,10 @@ func TestC04(t *testing.T) {
 // C06: queued jobs start in the order they were accepted.
 func TestC06(t *testing.T) {
 	cfg := &Cfg{Prop: "C06", MaxPipelines: 1, MaxTasks: 2, DelayPct: 35, ReplacePct: 0, CyclicPct: 8, ReservedPct: 12,
-		LimitChoices: []int{-1, -1, -1, 3}, Weights: map[string]int{"schedule": 40, "cancel": 12, "finish": 30, "timer": 14, "hold": 2, "release": 3},
+		LimitChoices: []int{-1, -1, -1, 3}, Weights: map[string]int{"schedule": 40, "cancel": 12, "finish": 30, "timer": 14, "hold": 2, "release": 3, "scheduleCompleting": 6},
 		Armed: map[string]bool{"C06": true}}
 	runHistories(t, histOpts{cfg: cfg, failPct: 20,
-		rule: "single-pipeline histories without reload, queue unbounded or 3, concurrency 1-3, cancels of head/middle/tail, unstartable heads, failures, timers fired out of order; oracle at every observed start of a job that had waited: no earlier-accepted job of the pipeline is still waiting (accepted, not started, not canceled); non-trivial = >=3 jobs waited at once, >=1 of them was canceled or could not start, and >=2 waited jobs started later; distinct by action trace",
+		rule: "single-pipeline histories without reload, queue unbounded or 3, concurrency 1-3, cancels of head/middle/tail, unstartable heads, failures, timers fired out of order, schedule requests that arrive while a job of the pipeline completes (last task done, runner held inside Finish); oracle at every observed start of a job: no earlier-accepted job of the pipeline is still waiting (accepted, not started, not canceled); non-trivial = >=3 jobs waited at once, >=1 of them was canceled or could not start, and >=2 waited jobs started later; distinct by action trace",
 		nontrivial: func(c map[string]int) bool {
 			return c["waiting>=3"] > 0 && (c["cancel:waiting"] > 0 || c["bad-waited"] > 0) && c["dequeue-start"] >= 2
 		}})
